@@ -402,6 +402,7 @@ def _justify_push(ck, fm: FuncModel, loop, inner, cur, n, e, kind):
     return False, why
 
 
+_COMP_ENV: dict = {}   # names bound by the comprehension under examination -> the collection they range over
 _SELF: list = []   # (filled during a query) places where the current node itself may be an element
 _VISIT: set = set()
 
@@ -422,6 +423,20 @@ def _descends(ck, fm: FuncModel, e, at, cur, depth):
     if isinstance(e, ast.Name) and cur is not None and e.id == cur:
         _SELF.append(e)
         return True, ""
+    if isinstance(e, ast.Name) and e.id in _COMP_ENV:
+        # bound by a comprehension: an element of the iterated collection
+        return _descends(ck, fm, _COMP_ENV[e.id], at, cur, depth + 1)
+    if isinstance(e, (ast.ListComp, ast.SetComp, ast.GeneratorExp)):
+        saved = dict(_COMP_ENV)
+        try:
+            for g_ in e.generators:
+                for x_ in ast.walk(g_.target):
+                    if isinstance(x_, ast.Name):
+                        _COMP_ENV[x_.id] = g_.iter
+            return _descends(ck, fm, e.elt, at, cur, depth + 1)
+        finally:
+            _COMP_ENV.clear()
+            _COMP_ENV.update(saved)
     if isinstance(e, ast.Call):
         nm = callee_name(e)
         if nm in ("set", "sorted", "list", "tuple", "frozenset") and e.args:
@@ -482,6 +497,8 @@ def _descends(ck, fm: FuncModel, e, at, cur, depth):
 
 
 def _descends_or_self(ck, fm, a, at, cur, depth):
+    if isinstance(a, ast.Name) and a.id in _COMP_ENV:
+        return _descends(ck, fm, _COMP_ENV[a.id], at, cur, depth + 1)
     if isinstance(a, ast.Name):
         ok = True
         for d in fm.cfg.reaching_defs(a.id, at):
@@ -1078,6 +1095,8 @@ def _recursion_witness(ck: Check, comp: set[str]) -> tuple[bool, str]:
         p = fm.f.params()[0]
         for c in calls:
             a = c.args[0] if c.args else None
+            from .common import resolve_cached
+            a = resolve_cached(fm, a, fm.cfgn(c)) if a is not None else None
             if not (isinstance(a, ast.Call) and callee_name(a) == "r_restrict" and text(a.func.value) == p
                     and isinstance(a.args[0], ast.Dict) and len(a.args[0].keys) == 1):
                 return False, "recursive call is not on a cofactor of the argument"
